@@ -693,6 +693,14 @@ class LogQ:
         return self.q
 
     def _cmp(self, o, rel):
+        if _is_num(o) and self.q.is_const() and self.q.c > 0:
+            f = float(o)
+            if f == f and abs(f) != math.inf and f != 0.0:
+                # concrete log value against a finite float
+                num, den = self.q.c.numerator, self.q.c.denominator
+                v = math.log(num) - math.log(den)
+                return {"<": v < f, "<=": v <= f, ">": v > f, ">=": v >= f,
+                        "==": v == f, "!=": v != f}[rel]
         oq = self._lift(o)
         if oq is None:
             return NotImplemented
